@@ -2,7 +2,7 @@
 # usage: tools/store_seed.py <ID> <slug> <property> "<needs>" "<detected_by>" "<ran>"
 import sys, os, shutil, json, glob
 sid, slug, prop, needs, detected, ran = sys.argv[1:7]
-src = f"/tmp/seed_{sid}/seed_out"
+src = (os.environ.get("SEED_WT") or f"/tmp/seed_{sid}") + "/seed_out"
 dst = f"/verif/seeded/{slug}"
 os.makedirs(dst, exist_ok=True)
 shutil.copy(f"{src}/patch.diff", f"{dst}/patch.diff")
